@@ -895,9 +895,42 @@ static void runUser(int scaler, bool persistent, int simp, const CaseLP& c, cons
    observe(A, B, 0, "load");
    int k = 0;
 
-   for(auto& t : ops)
+   for(auto t : ops)
    {
       k++;
+
+      // sc_lo / sc_up / sc_lhs / sc_rhs <index>: the change function is called with the value the SCALED object stores internally for
+      // that bound or side (the scaled image of the current value): a guard that compares the user's value with the stored one
+      // sees "nothing to do".  Both objects get the same call.
+      if(t.size() >= 3 && t[1].compare(0, 3, "sc_") == 0)
+      {
+         int idx = atoi(t[2].c_str());
+         const std::string what = t[1].substr(3);
+         bool rowop = what == "lhs" || what == "rhs";
+         double v = 0.0;
+         bool ok = idx >= 0 && idx < (rowop ? B.numRows() : B.numCols()) && idx < (rowop ? A.numRows() : A.numCols());
+
+         if(ok)
+         {
+            const SPxLPBase<double>& L = *B._realLP;
+            v = what == "lo" ? L.lower(idx) : what == "up" ? L.upper(idx) : what == "lhs" ? L.lhs(idx) : L.rhs(idx);
+            ok = std::fabs(v) < 1e90;
+
+            if(ok && what == "lo") ok = v <= B.upperReal(idx);
+            if(ok && what == "up") ok = v >= B.lowerReal(idx);
+            if(ok && what == "lhs") ok = v <= B.rhsReal(idx);
+            if(ok && what == "rhs") ok = v >= B.lhsReal(idx);
+         }
+
+         if(!ok)
+         {
+            printf("OP %d %s skipped\n", k, t[1].c_str());
+            continue;
+         }
+
+         t = {t[0], "chg_" + what, t[2], vf::dy(v)};
+      }
+
       SPxSolverBase<double>::Status sa = SPxSolverBase<double>::UNKNOWN, sb = SPxSolverBase<double>::UNKNOWN;
       bool solved = false;
       std::string ea, eb;
